@@ -5,9 +5,11 @@
 package xstar
 
 //@ struct pipe
+//@   never_closed: sendq
 //@   immutable: p s closeq sendq
 //@
 //@ struct socket
+//@   invariant sendQLen >= 0
 //@   close_token closeq when closed
 //@   lock Mutex level 20
 //@   guarded_by Mutex: closed pipes recvQLen sendQLen recvExpire recvq ttl
